@@ -29,6 +29,8 @@ type c37Input struct {
 	Body     string   `json:"body,omitempty"`
 	Headers  []c37Hdr `json:"headers,omitempty"`
 	Remote   string   `json:"remote"`
+	Via      string   `json:"via,omitempty"`       // direct (handler called with a recorder) | wire (real HTTP client -> real net/http server in front of the router's handler)
+	BodyMode string   `json:"body_mode,omitempty"` // sized | unknown (length hidden: ContentLength -1 / chunked transfer encoding) | zero (no body at all)
 	UpStatus int      `json:"up_status"`
 	UpHdrs   []c37Hdr `json:"up_headers,omitempty"`
 	UpBody   string   `json:"up_body,omitempty"`
@@ -79,6 +81,19 @@ func c37Gen(r *rand.Rand, tier string, i int) any {
 	in.Target = c37Targets[r.Intn(len(c37Targets))] + c37Queries[r.Intn(len(c37Queries))]
 	if in.Method != "GET" && in.Method != "HEAD" && in.Method != "OPTIONS" {
 		in.Body = c37Bodies[r.Intn(len(c37Bodies))]
+	} else if in.Method != "HEAD" && r.Intn(4) == 0 {
+		in.Body = c37Bodies[1+r.Intn(len(c37Bodies)-1)] // a body on a method that rarely carries one
+	}
+	in.Via, in.BodyMode = "direct", "sized"
+	if r.Intn(10) < 3 {
+		in.Via = "wire"
+	}
+	switch x := r.Intn(10); {
+	case x < 4:
+		in.BodyMode = "unknown" // also with an empty body: unknown length, nothing to read
+	case x == 4:
+		in.BodyMode = "zero"
+		in.Body = ""
 	}
 	in.Headers = c37GenHdrs(r, c37ReqNames, 5)
 	if r.Intn(4) == 0 { // X-Forwarded-For chains are the interesting header: force one, often multi-valued
@@ -201,22 +216,71 @@ func c37Run(raw json.RawMessage) (Case, error) {
 	}
 	g.api.mu.Unlock()
 
+	if in.Via != "wire" {
+		in.Via = "direct"
+	}
+	if in.BodyMode != "unknown" && in.BodyMode != "zero" {
+		in.BodyMode = "sized"
+	}
+	if in.BodyMode == "zero" || in.Method == "HEAD" {
+		in.Body = ""
+	}
 	var rd io.Reader
-	if in.Body != "" {
+	switch {
+	case in.BodyMode == "zero":
+		rd = nil
+	case in.BodyMode == "unknown":
+		rd = struct{ io.Reader }{bytes.NewReader([]byte(in.Body))} // hides the length: ContentLength -1, chunked on the wire
+	case in.Body != "":
 		rd = bytes.NewReader([]byte(in.Body))
 	}
-	req := httptest.NewRequest(in.Method, in.Target, rd)
-	req.RemoteAddr = in.Remote
+	if in.Via == "wire" { // Go's client transport writes only the first User-Agent value: keep the input honest
+		for i := range in.Headers {
+			if in.Headers[i].Name == "User-Agent" && len(in.Headers[i].Values) > 1 {
+				in.Headers[i].Values = in.Headers[i].Values[:1]
+			}
+		}
+	}
 	clientSent := map[string]bool{}
 	for _, h := range in.Headers {
 		clientSent[h.Name] = true
-		for _, v := range h.Values {
-			req.Header.Add(h.Name, v)
-		}
 	}
-	req.Header.Set("X-Verif-Proxied", "1")
-	w := newRespWriter()
-	g.handler.ServeHTTP(w, req)
+	var gotStatus int
+	var gotHeader http.Header
+	var gotBody []byte
+	if in.Via == "wire" {
+		srv := c37WireServer(g)
+		req, err := http.NewRequest(in.Method, srv.URL+in.Target, rd)
+		if err != nil {
+			return Case{}, err
+		}
+		for _, h := range in.Headers {
+			for _, v := range h.Values {
+				req.Header.Add(h.Name, v)
+			}
+		}
+		req.Header.Set("X-Verif-Proxied", "1")
+		resp, err := c37WireClient.Do(req)
+		if err != nil {
+			return Case{}, fmt.Errorf("wire request: %w", err)
+		}
+		gotBody, _ = io.ReadAll(resp.Body)
+		resp.Body.Close()
+		gotStatus, gotHeader = resp.StatusCode, resp.Header
+		in.Remote = c37WireRemote // the peer address the router saw
+	} else {
+		req := httptest.NewRequest(in.Method, in.Target, rd)
+		req.RemoteAddr = in.Remote
+		for _, h := range in.Headers {
+			for _, v := range h.Values {
+				req.Header.Add(h.Name, v)
+			}
+		}
+		req.Header.Set("X-Verif-Proxied", "1")
+		w := newRespWriter()
+		g.handler.ServeHTTP(w, req)
+		gotStatus, gotHeader, gotBody = w.effStatus(), w.hdr, w.body
+	}
 
 	g.api.mu.Lock()
 	seen := append([]respSeen(nil), g.api.seen...)
@@ -233,7 +297,7 @@ func c37Run(raw json.RawMessage) (Case, error) {
 		dropReq["User-Agent"] = true
 	}
 	upHdrs := c37FromHeader(up.Header, dropReq)
-	gotHdrs := c37FromHeader(w.hdr, map[string]bool{"Date": true, "Content-Length": true})
+	gotHdrs := c37FromHeader(gotHeader, map[string]bool{"Date": true, "Content-Length": true})
 	coqReq := func(method, target, body string, hs []c37Hdr, remote string) string {
 		return fmt.Sprintf("{| q_method := %s; q_target := %s; q_body := %s; q_hdrs := %s; q_remote := %s |}",
 			cq.Str(method), cq.Str(target), cq.Str(body), c37CoqHdrs(hs), cq.Str(remote))
@@ -241,12 +305,13 @@ func c37Run(raw json.RawMessage) (Case, error) {
 	coqResp := func(status int, hs []c37Hdr, body string) string {
 		return fmt.Sprintf("{| s_status := %s; s_hdrs := %s; s_body := %s |}", cq.N(uint64(status)), c37CoqHdrs(hs), cq.Str(body))
 	}
-	coq := fmt.Sprintf("{| c_req := %s; c_up := %s; o_up_req := %s; o_up_count := %s; o_resp := %s |}",
+	coq := fmt.Sprintf("{| c_req := %s; c_up := %s; o_up_req := %s; o_up_count := %s; o_resp := %s; c_unusual_body := %s |}",
 		coqReq(in.Method, in.Target, in.Body, append([]c37Hdr(nil), in.Headers...), in.Remote),
 		coqResp(in.UpStatus, append([]c37Hdr(nil), in.UpHdrs...), in.UpBody),
 		coqReq(up.Method, up.RequestURI, string(up.Body), upHdrs, in.Remote),
 		cq.N(uint64(len(seen))),
-		coqResp(w.effStatus(), gotHdrs, string(w.body)))
+		coqResp(gotStatus, gotHdrs, string(gotBody)),
+		cq.Bool(in.BodyMode != "sized" || (in.Method != "POST" && in.Method != "PUT" && in.Method != "PATCH")))
 	b, _ := json.Marshal(in)
 	multi := false
 	for _, h := range append(append([]c37Hdr{}, in.Headers...), in.UpHdrs...) {
@@ -256,13 +321,35 @@ func c37Run(raw json.RawMessage) (Case, error) {
 	}
 	tags := []string{"method:" + in.Method, fmt.Sprintf("up_status:%d", in.UpStatus), fmt.Sprintf("req_headers:%d", len(in.Headers)),
 		fmt.Sprintf("resp_headers:%d", len(in.UpHdrs)), fmt.Sprintf("multi_valued:%v", multi), fmt.Sprintf("query:%v", strings.Contains(in.Target, "?")),
-		fmt.Sprintf("body:%v", in.Body != "")}
+		fmt.Sprintf("body:%v", in.Body != ""), "via:" + in.Via, "body_mode:" + in.BodyMode}
+	if in.Body != "" && (in.Method == "GET" || in.Method == "DELETE" || in.Method == "OPTIONS") {
+		tags = append(tags, "body-on-unusual-method")
+	}
 	if clientSent["X-Forwarded-For"] {
 		tags = append(tags, "client-xff")
 	}
 	return Case{Input: b, Coq: coq, Key: string(b), Nontriv: multi || clientSent["X-Forwarded-For"] || in.UpStatus >= 300 || in.Body != "", Tags: tags,
 		Summary: map[string]any{"request": in, "upstream_saw": map[string]any{"count": len(seen), "method": up.Method, "uri": up.RequestURI,
-			"headers": upHdrs, "body_len": len(up.Body)}, "client_got": map[string]any{"status": w.effStatus(), "headers": gotHdrs, "body_len": len(w.body)}}}, nil
+			"headers": upHdrs, "body_len": len(up.Body)}, "client_got": map[string]any{"status": gotStatus, "headers": gotHdrs, "body_len": len(gotBody)}}}, nil
+}
+
+// a real net/http server in front of the router's handler, and a real client that neither follows redirects
+// nor negotiates compression
+var c37Wire *httptest.Server
+var c37WireRemote string
+var c37WireClient = &http.Client{
+	CheckRedirect: func(*http.Request, []*http.Request) error { return http.ErrUseLastResponse },
+	Transport:     &http.Transport{DisableCompression: true},
+}
+
+func c37WireServer(g *respRig) *httptest.Server {
+	if c37Wire == nil {
+		c37Wire = httptest.NewServer(http.HandlerFunc(func(w http.ResponseWriter, r *http.Request) {
+			c37WireRemote = r.RemoteAddr
+			g.handler.ServeHTTP(w, r)
+		}))
+	}
+	return c37Wire
 }
 
 func c37Shrink(raw json.RawMessage) []json.RawMessage {
@@ -300,6 +387,16 @@ func c37Shrink(raw json.RawMessage) []json.RawMessage {
 	if in.Target != "/1/markers/ds" {
 		c := in
 		c.Target = "/1/markers/ds"
+		try(c)
+	}
+	if in.Via == "wire" {
+		c := in
+		c.Via = "direct"
+		try(c)
+	}
+	if in.BodyMode != "sized" && in.BodyMode != "" {
+		c := in
+		c.BodyMode = "sized"
 		try(c)
 	}
 	if in.Method != "GET" {
